@@ -186,10 +186,12 @@ Proof.
   - assert (U : units_ok ex_M_ext_ok) by (apply units_okb_ok; vm_compute; reflexivity).
     assert (C : check_layout ex_T ex_M_ext_ok = true) by (vm_compute; reflexivity).
     split; [exact U|]. split; [exact C|]. apply (check_layout_iff_realisable_lem ex_T _ eq_refl U). exact C.
-  - repeat constructor; try (apply units_okb_ok; vm_compute; reflexivity); try (vm_compute; reflexivity);
-      intros R; match type of R with realisable _ ?M =>
-        assert (U : units_ok M) by (apply units_okb_ok; vm_compute; reflexivity);
-        apply (check_layout_iff_realisable_lem ex_T M eq_refl U) in R; vm_compute in R; discriminate end.
+  - assert (K : forall M, units_okb M = true -> check_layout ex_T M = false ->
+                units_ok M /\ check_layout ex_T M = false /\ ~ realisable ex_T M).
+    { intros M HU HC. pose proof (units_okb_ok M HU) as U. split; [exact U|]. split; [exact HC|].
+      intros R. apply (check_layout_iff_realisable_lem ex_T M eq_refl U) in R. congruence. }
+    unfold ex_M_ext_bad.
+    repeat (apply Forall_cons; [apply K; vm_compute; reflexivity|]). apply Forall_nil.
 Qed.
 
 (* the addressable unit of an accepted module's externals is 1 or 8, and it is what decides where a
@@ -199,7 +201,7 @@ Lemma external_unit_lem T M :
   (xd_unit x = Some 1 \/ xd_unit x = Some 8) /\ unit_of_ref M (RExt i) = ext_unit x
   /\ (ext_unit x = 1 \/ ext_unit x = 8).
 Proof.
-  unfold check_layout. rewrite !andb_true_iff. intros [[[[_ H] _] _] _] i x E.
+  unfold check_layout. rewrite !andb_true_iff. intros [[[[[_ H] _] _] _] _] i x E.
   rewrite forallb_forall in H. assert (R : real_external x).
   { apply check_external_iff. apply H. unfold nth_ext in E. eapply nth_error_In; eauto. }
   split; [exact R|]. split; [simpl; rewrite E; reflexivity|apply ext_unit_ok; exact R].
